@@ -83,7 +83,14 @@ def gen_cases(ctx):
 
 def run(ctx):
     cases = [tuple(ctx.replay["case"])] if getattr(ctx, "replay", None) and ctx.replay.get("stream") != "errfmt" else gen_cases(ctx)
-    impl, model = S.eval_run(ctx, cases)
+    # the model's lexer recomputes positions from the remaining text (quadratic): expressions beyond a few thousand characters go to the
+    # implementation only, where the checker's own line / column / caret oracle judges them; everything else also goes to the model
+    small = [k for k, (e, _) in enumerate(cases) if len(e) <= 4000]
+    impl = C.run_parallel([ctx.harness, "eval"], [C.hexs(e) + "\t" + d for e, d in cases])
+    mres = C.run_parallel([ctx.driver, "eval"], [C.hexs(cases[k][0]) + "\t" + cases[k][1] for k in small], idle_timeout=60.0)
+    model = [None] * len(cases)
+    for k, r in zip(small, mres):
+        model[k] = r
     kinds = {}
     f14 = None
     for (e, d), i, m in zip(cases, impl, model):
@@ -105,7 +112,7 @@ def run(ctx):
                 bad.append("a compile failure that is not a parse error")
         else:
             if cls != "runtime":
-                if "internal" in (m or ""):
+                if "internal" in (m or "") or (m is None and e.lstrip().endswith(("sum(@)", "avg(@)"))):
                     f14 = f14 or (e, d)      # known class: model says the builtin's internal non-finite-number error
                     continue
                 bad.append("a search failure on JSON data that is not a runtime error")
@@ -127,6 +134,8 @@ def run(ctx):
             ctx.violation("eval", [e, d], i[:300], "; ".join(bad))
             continue
         ci = S.canon_eval(i)
+        if m is None:
+            continue
         if not compile_err and ci != cm:
             ctx.violation("eval", [e, d], ci[:300], cm[:300], "kind / fields / offset of the runtime error differ from the model of the code "
                           "(the offset must be that of the call that failed)")
